@@ -9,10 +9,11 @@
 #![allow(dead_code)]
 use algebra_mc::core::*;
 use algebra_mc::fpaccess::FpAccess;
-use algebra_mc::refmodel::curve::Pt;
-use algebra_mc::refmodel::fieldmodel::prime_to_u64;
+use algebra_mc::refmodel::curve::{GroupTable, Pt, SwModel};
+use algebra_mc::refmodel::fieldmodel::{prime_to_u64, FieldModel, Fp2Model};
 use algebra_mc::refmodel::zmod::*;
 use algebra_mc::toy::gen_fields::*;
+use algebra_mc::toy::gen_towers::{T13Fq2, T5Fq2, T7Fq2};
 use algebra_mc::toycurve::{SwToy, TeToy};
 use ark_ec::pairing::{Pairing, PairingOutput};
 use ark_ec::short_weierstrass::{self as sw, SWCurveConfig, SWFlags};
@@ -887,6 +888,422 @@ where
 }
 
 // ------------------------------------------------------------------------------------------
+// (E2) toy short-Weierstrass curves over toy quadratic extension fields F_p[u]/(u^2 - beta):
+// every byte string of the compressed encoding length (2 bytes) and shorter.  Decompression takes
+// a square root in F_p^2 (QuadExtField::sqrt: shortcut for rhs in F_p with its residue /
+// non-residue split, "complex method" otherwise) - a code path no prime-field curve reaches.
+//
+// Format model read off the library (ff/src/fields/models/quadratic_extension.rs
+// serialize_with_flags / deserialize_with_flags): c0 as a plain base-field element (no flag bits),
+// then c1 with the flag bits in the top bits of ITS last byte (= the last byte of the element);
+// a point is x [|| y] with the SWFlags on the last coefficient written.  Order used for the sign
+// flag (QuadExtField::cmp): c1 first, then c0.
+// Parameters found by brute force outside the harness; everything is re-validated below with the
+// u64 model (Fp2Model / SwModel / GroupTable).
+// ------------------------------------------------------------------------------------------
+macro_rules! ext_sw {
+    ($name:ident, $F:ty, $R:ty, $h:expr, $hinv:expr, $a:expr, $b:expr, $gx:expr, $gy:expr) => {
+        #[derive(Clone, Copy, Debug, Default, PartialEq, Eq)]
+        pub struct $name;
+        impl CurveConfig for $name {
+            type BaseField = $F;
+            type ScalarField = $R;
+            const COFACTOR: &'static [u64] = &[$h];
+            const COFACTOR_INV: $R = MontFp!($hinv);
+        }
+        impl SWCurveConfig for $name {
+            const COEFF_A: $F = $a;
+            const COEFF_B: $F = $b;
+            const GENERATOR: sw::Affine<Self> = sw::Affine::new_unchecked($gx, $gy);
+        }
+    };
+}
+macro_rules! q2 {
+    ($F:ty, $c0:expr, $c1:expr) => {
+        <$F>::new(MontFp!($c0), MontFp!($c1))
+    };
+}
+// y^2 = x^3 + (3+2u) over F_7[u]/(u^2+1): 52 = 4 * 13 points (a = 0, 2-torsion: three points with y = 0)
+ext_sw!(SwQ7A0B32, T7Fq2, D13, 4, "10", q2!(T7Fq2, "0", "0"), q2!(T7Fq2, "3", "2"), q2!(T7Fq2, "5", "1"), q2!(T7Fq2, "4", "6"));
+// y^2 = x^3 + (1+2u) over F_7[u]/(u^2+1): 61 points, prime order (a = 0, cofactor 1)
+ext_sw!(SwQ7A0B12, T7Fq2, D61, 1, "1", q2!(T7Fq2, "0", "0"), q2!(T7Fq2, "1", "2"), q2!(T7Fq2, "1", "0"), q2!(T7Fq2, "5", "3"));
+// y^2 = x^3 + u x + (1+u) over F_5[u]/(u^2-2): 34 = 2 * 17 points (a != 0, general non-residue)
+ext_sw!(SwQ5AuB11, T5Fq2, D17, 2, "9", q2!(T5Fq2, "0", "1"), q2!(T5Fq2, "1", "1"), q2!(T5Fq2, "2", "3"), q2!(T5Fq2, "1", "4"));
+// y^2 = x^3 + u x + (2+2u) over F_13[u]/(u^2-2): 172 = 4 * 43 points (a != 0, general non-residue; = SwQ13A of c03.rs)
+ext_sw!(SwQ13AuB22, T13Fq2, D43, 4, "11", q2!(T13Fq2, "0", "1"), q2!(T13Fq2, "2", "2"), q2!(T13Fq2, "9", "12"), q2!(T13Fq2, "4", "0"));
+
+/// model class of rhs(x) = x^3 + a x + b, the argument of the square root taken by decompression
+#[derive(Clone, Copy, Debug, PartialEq, Eq)]
+enum RhsCls {
+    Zero,
+    /// (c0, 0) with c0 a non-zero square of F_p: root (s, 0)
+    BaseResidue,
+    /// (c0, 0) with c0 a non-residue of F_p: still a square of F_p^2, root (0, s) with s^2 = c0 / beta
+    BaseNonResidue,
+    /// c1 != 0, a square of F_p^2
+    GeneralSquare,
+    /// c1 != 0, not a square
+    GeneralNonSquare,
+}
+
+struct ExtToy<P: SWCurveConfig> {
+    name: String,
+    f: Fp2Model,
+    m: SwModel<Fp2Model>,
+    g: GroupTable<(u64, u64)>,
+    r: u64,
+    h: u64,
+    gen: usize,
+    in_subgroup: Vec<bool>,
+    /// per x (index c0 + p c1): the points (y, oracle index) with that x
+    by_x: Vec<Vec<((u64, u64), usize)>>,
+    rhs_cls: Vec<RhsCls>,
+    _p: std::marker::PhantomData<P>,
+}
+impl<P: SWCurveConfig> ExtToy<P>
+where
+    P::ScalarField: PrimeField,
+{
+    fn fe(e: (u64, u64)) -> P::BaseField {
+        small_from::<P::BaseField>(&[e.0, e.1])
+    }
+    fn co(x: &P::BaseField) -> (u64, u64) {
+        let c = small_coeffs(x);
+        (c[0], c[1])
+    }
+    fn xi(&self, x: (u64, u64)) -> usize {
+        (x.0 + self.f.p * x.1) as usize
+    }
+    /// builds the oracle group and validates every toy parameter (None: unusable, a validation failed)
+    fn new(ctx: &mut Ctx, name: &str, f: Fp2Model) -> Option<Self> {
+        let p = f.p;
+        let sm = Small::of::<P::BaseField>();
+        ctx.validate(sm.p == p && sm.d == 2 && p > 2 && is_prime_small(p), &format!("{name}: base field is a quadratic extension of the prime field F_{p}"));
+        ctx.validate(f.beta > 0 && f.beta < p && powmod(f.beta, (p - 1) / 2, p) == p - 1, &format!("{name}: beta = {} is a non-residue of F_{p}", f.beta));
+        // the bridge model <-> library field: u^2 = beta, a few sums and products (typo guard; field arithmetic is C02's subject)
+        ctx.validate(Self::fe((0, 1)).square() == Self::fe((f.beta, 0)), &format!("{name}: u^2 = beta in the library field"));
+        let els = f.elements();
+        let probe = [els[1], els[els.len() - 1], els[els.len() / 2 + 3], (0, 1), (p - 1, 2)];
+        for a in probe {
+            for b in probe {
+                ctx.validate(Self::co(&(Self::fe(a) * Self::fe(b))) == f.mul(a, b) && Self::co(&(Self::fe(a) + Self::fe(b))) == f.add(a, b), &format!("{name}: field bridge on {a:?},{b:?}"));
+            }
+        }
+        let m = SwModel { f, a: Self::co(&P::COEFF_A), b: Self::co(&P::COEFF_B) };
+        // non-singular: 4 a^3 + 27 b^2 != 0
+        let disc = f.add(f.mul(f.from_u64(4), f.mul(m.a, f.sq(m.a))), f.mul(f.from_u64(27), f.sq(m.b)));
+        ctx.validate(!f.is_zero(disc), &format!("{name}: discriminant non-zero"));
+        let pts = m.points();
+        let n = pts.len() as u64;
+        let q = f.order();
+        let mm = m.clone();
+        let g = GroupTable::build(pts, Pt::O, move |a, b| Some(mm.add(a, b)));
+        let rl = <P::ScalarField as PrimeField>::MODULUS;
+        let r = rl.as_ref()[0];
+        ctx.validate(rl.as_ref()[1..].iter().all(|x| *x == 0) && P::COFACTOR.len() == 1, &format!("{name}: r and h fit one limb"));
+        let h = P::COFACTOR[0];
+        let d = n as i64 - (q as i64 + 1);
+        ctx.validate((d * d) as u64 <= 4 * q, &format!("{name}: Hasse bound, #E={n} q={q}"));
+        ctx.validate(is_prime_small(r) && n == h * r && h % r != 0, &format!("{name}: #E = {n} = h*r = {h}*{r}, r prime, r does not divide h"));
+        let gen_pt = Pt::A(Self::co(&P::GENERATOR.x), Self::co(&P::GENERATOR.y));
+        let Some(gen) = g.index.get(&gen_pt).copied() else {
+            ctx.validate(false, &format!("{name}: generator on the curve"));
+            return None;
+        };
+        ctx.validate(g.order(gen) == Some(r), &format!("{name}: generator has order r"));
+        let hinv = prime_to_u64(&P::COFACTOR_INV);
+        ctx.validate((hinv * h) % r == 1 % r, &format!("{name}: COFACTOR_INV = {hinv} inverts h = {h} mod r = {r}"));
+        let k = g.n().min(12);
+        let mut ok = true;
+        for a in 0..k {
+            for b in 0..k {
+                for c in 0..k {
+                    ok &= g.add[g.add[a][b]][c] == g.add[a][g.add[b][c]];
+                }
+            }
+        }
+        ctx.validate(ok, &format!("{name}: oracle law associative"));
+        let in_subgroup: Vec<bool> = (0..g.n()).map(|i| g.mul(r, i) == Some(g.id)).collect();
+        ctx.validate(in_subgroup.iter().filter(|b| **b).count() as u64 == r, &format!("{name}: subgroup has r elements"));
+        ctx.validate(h == 1 || in_subgroup.iter().any(|b| !*b), &format!("{name}: cofactor > 1 => points outside the subgroup exist"));
+        let mut by_x: Vec<Vec<((u64, u64), usize)>> = vec![Vec::new(); q as usize];
+        for (i, pt) in g.pts.iter().enumerate() {
+            if let Pt::A(x, y) = pt {
+                by_x[(x.0 + p * x.1) as usize].push((*y, i));
+            }
+        }
+        // class of rhs(x), from the model only: residues of F_p by listing the squares
+        let base_squares: Vec<bool> = (0..p).map(|c| (1..p).any(|z| z * z % p == c)).collect();
+        let mut rhs_cls = vec![RhsCls::Zero; q as usize];
+        let mut ok_roots = true;
+        for x in &els {
+            let i = (x.0 + p * x.1) as usize;
+            let rhs = m.rhs(*x);
+            let c = if rhs == (0, 0) {
+                RhsCls::Zero
+            } else if rhs.1 == 0 {
+                if base_squares[rhs.0 as usize] {
+                    RhsCls::BaseResidue
+                } else {
+                    RhsCls::BaseNonResidue
+                }
+            } else if by_x[i].is_empty() {
+                RhsCls::GeneralNonSquare
+            } else {
+                RhsCls::GeneralSquare
+            };
+            // every element of F_p is a square in F_p^2: a non-residue c0 has the roots (0, +-s), a residue (+-s, 0)
+            ok_roots &= match c {
+                RhsCls::Zero => by_x[i].len() == 1 && by_x[i][0].0 == (0, 0),
+                RhsCls::BaseResidue => by_x[i].len() == 2 && by_x[i].iter().all(|(y, _)| y.1 == 0 && y.0 != 0),
+                RhsCls::BaseNonResidue => by_x[i].len() == 2 && by_x[i].iter().all(|(y, _)| y.0 == 0 && y.1 != 0),
+                RhsCls::GeneralSquare => by_x[i].len() == 2 && by_x[i].iter().all(|(y, _)| y.0 != 0 && y.1 != 0),
+                RhsCls::GeneralNonSquare => true,
+            };
+            rhs_cls[i] = c;
+        }
+        ctx.validate(ok_roots, &format!("{name}: shape of the roots of rhs(x) per class (base-field rhs always has a root in F_p^2)"));
+        Some(ExtToy { name: name.to_string(), f, m, g, r, h, gen, in_subgroup, by_x, rhs_cls, _p: std::marker::PhantomData })
+    }
+    fn idx_aff(&self, a: &sw::Affine<P>) -> Option<usize> {
+        if a.infinity {
+            return Some(self.g.id);
+        }
+        self.g.index.get(&Pt::A(Self::co(&a.x), Self::co(&a.y))).copied()
+    }
+    /// decodes X/Z^2, Y/Z^3 with MODEL arithmetic
+    fn idx_proj(&self, q: &sw::Projective<P>) -> Option<usize> {
+        let (x, y, z) = (Self::co(&q.x), Self::co(&q.y), Self::co(&q.z));
+        if z == (0, 0) {
+            return Some(self.g.id);
+        }
+        let f = &self.f;
+        let zi = f.inv(z);
+        let zi2 = f.sq(zi);
+        self.g.index.get(&Pt::A(f.mul(x, zi2), f.mul(y, f.mul(zi2, zi)))).copied()
+    }
+    /// the root selected by the sign flag: 0x80 = the larger of {y, -y} in the order (c1, then c0)
+    fn pick(&self, x: (u64, u64), fm: u8) -> Option<((u64, u64), usize)> {
+        let ys = &self.by_x[self.xi(x)];
+        let key = |e: &&((u64, u64), usize)| (e.0 .1, e.0 .0);
+        if fm == 0x80 {
+            ys.iter().max_by_key(key).copied()
+        } else {
+            ys.iter().min_by_key(key).copied()
+        }
+    }
+}
+const SW_EXT_SITES: [&str; 5] = ["sw_ext_toy/read_past_advertised_size", "sw_ext_toy/panic", "sw_ext_toy/checked_returns_invalid_point", "sw_ext_toy/checked_accepts_bad_encoding", "sw_ext_toy/infinity_flag_returns_non_identity"];
+
+fn sw_ext_bytes<P: SWCurveConfig>(ctx: &mut Ctx, name: &str, f: Fp2Model)
+where
+    P::ScalarField: PrimeField,
+{
+    let Some(t) = ExtToy::<P>::new(ctx, name, f) else { return };
+    let t = &t;
+    let p = f.p;
+    let m = Small::new(p, 2);
+    let (xlen, plen) = (m.total(0), m.total(2)); // x without flags; last coordinate with the 2 SW flag bits
+    let beta_minus_one = f.beta == p - 1;
+    // the library call + verdict, shared by all sweeps below
+    let run = |loc: &mut Loc, b: &[u8], cls: Cls, compress: bool, vt: u64, advertised: usize| {
+        let checked = vt & 1 == 0;
+        let as_proj = vt & 2 != 0;
+        let cm = if compress { Compress::Yes } else { Compress::No };
+        let vm = if checked { Validate::Yes } else { Validate::No };
+        let len = b.len();
+        cls.label(loc, len);
+        match cls {
+            Cls::Valid(_) => loc.class("ext:valid_subgroup_point"),
+            Cls::OutSub(_) => loc.class("ext:out_of_subgroup_rejected"),
+            Cls::OffCurve => loc.class("ext:off_curve_rejected"),
+            Cls::NoSqrt => loc.class("ext:no_sqrt"),
+            Cls::BadInt => loc.class("ext:field_int>=p"),
+            _ => {}
+        }
+        loc.class_if(beta_minus_one, "ext:beta=-1");
+        loc.class_if(!beta_minus_one, "ext:beta!=-1");
+        let what = || format!("{name} {} {} as {} input {} ({len} bytes)", if compress { "compressed" } else { "uncompressed" }, if checked { "checked" } else { "unchecked" }, if as_proj { "Projective" } else { "Affine" }, hex(b));
+        if loc.sampling() {
+            loc.sample(format!("{} model class {cls:?}", what()));
+        }
+        let mut rd = CountReader::new(b);
+        let res = guard(|| {
+            if as_proj {
+                sw::Projective::<P>::deserialize_with_mode(&mut rd, cm, vm).map(|q| (t.idx_proj(&q), q.z.is_zero(), (q.x, q.y, q.z))).map_err(|_| ())
+            } else {
+                sw::Affine::<P>::deserialize_with_mode(&mut rd, cm, vm).map(|a| (t.idx_aff(&a), a.infinity, (a.x, a.y, P::BaseField::from(!a.infinity)))).map_err(|_| ())
+            }
+        });
+        let consumed = rd.pos;
+        judge_point(loc, &SW_EXT_SITES, &what, cls, checked, &|i| t.in_subgroup[i], res, consumed, advertised);
+    };
+    // ---- compressed: every byte string of every length 0..=2
+    {
+        let advertised = sw::Affine::<P>::identity().serialized_size(Compress::Yes);
+        let max_len = plen.max(advertised);
+        if max_len > 2 {
+            ctx.bound(&format!("bytes_ext_toy/{name}/compressed"), format!("not enumerated ({max_len}-byte encoding)"));
+        } else {
+            let ns = count_strings(max_len);
+            ctx.sweep(&format!("bytes_ext_toy/{name}/compressed"), ns * 4, |i, loc| {
+                let [is, vt] = unrank(i, [ns, 4]);
+                let (len, bytes) = nth_string(is);
+                let b = &bytes[..len];
+                let cls = if len < plen {
+                    Cls::Trunc
+                } else {
+                    match m.dec::<SWFlags>(b) {
+                        SDec::Short => Cls::Trunc,
+                        SDec::BadFlags => Cls::BadFlags,
+                        SDec::Stray | SDec::GeP => {
+                            // which coefficient is out of range (flag bits masked off the c1 byte)
+                            loc.class_if(b[0] as u64 >= p, "ext:field_int>=p_in_c0");
+                            loc.class_if((b[1] & !topmask(2)) as u64 >= p, "ext:field_int>=p_in_c1");
+                            Cls::BadInt
+                        }
+                        SDec::Ok(c, 0x40) => {
+                            if c[0] == 0 && c[1] == 0 {
+                                Cls::Identity
+                            } else {
+                                Cls::InfinityJunk
+                            }
+                        }
+                        SDec::Ok(c, fm) => {
+                            let x = (c[0], c[1]);
+                            // the library takes sqrt(rhs(x)) for exactly these inputs
+                            match t.rhs_cls[t.xi(x)] {
+                                RhsCls::Zero => loc.class("ext:rhs=0"),
+                                RhsCls::BaseResidue => loc.class("ext:rhs_c1=0_and_c0_residue"),
+                                RhsCls::BaseNonResidue => loc.class("ext:rhs_c1=0_and_c0_nonresidue"),
+                                RhsCls::GeneralSquare => loc.class("ext:rhs_c1!=0_square"),
+                                RhsCls::GeneralNonSquare => loc.class("ext:rhs_c1!=0_nonsquare"),
+                            }
+                            match t.pick(x, fm) {
+                                None => Cls::NoSqrt,
+                                Some((y, i)) => {
+                                    loc.class_if(y.1 != 0, "ext:y_sign_decided_by_c1");
+                                    loc.class_if(y.1 == 0 && y.0 != 0, "ext:y_sign_decided_by_c0");
+                                    if t.in_subgroup[i] {
+                                        Cls::Valid(i)
+                                    } else {
+                                        Cls::OutSub(i)
+                                    }
+                                }
+                            }
+                        }
+                    }
+                };
+                run(loc, b, cls, true, vt, advertised);
+            });
+        }
+    }
+    // ---- uncompressed (2 * 2 bytes): the model class of a full-length input
+    let ulen = xlen + plen;
+    let advertised_u = sw::Affine::<P>::identity().serialized_size(Compress::No);
+    let classify_u = |loc: &mut Loc, b: &[u8]| -> Cls {
+        if b.len() < ulen {
+            return Cls::Trunc;
+        }
+        match (m.dec::<EmptyFlags>(&b[..xlen]), m.dec::<SWFlags>(&b[xlen..])) {
+            (_, SDec::BadFlags) => Cls::BadFlags,
+            (SDec::Ok(cx, _), SDec::Ok(cy, fm)) => {
+                let (x, y) = ((cx[0], cx[1]), (cy[0], cy[1]));
+                if fm == 0x40 {
+                    if x == (0, 0) && y == (0, 0) {
+                        Cls::Identity
+                    } else {
+                        Cls::InfinityJunk
+                    }
+                } else {
+                    match t.g.index.get(&Pt::A(x, y)) {
+                        None => Cls::OffCurve,
+                        Some(i) if t.in_subgroup[*i] => Cls::Valid(*i),
+                        Some(i) => Cls::OutSub(*i),
+                    }
+                }
+            }
+            (dx, _) => {
+                loc.class_if(!matches!(dx, SDec::Ok(..)), "ext:field_int>=p_in_x");
+                loc.class_if(matches!(dx, SDec::Ok(..)), "ext:field_int>=p_in_y");
+                Cls::BadInt
+            }
+        }
+    };
+    if ulen.max(advertised_u) > 4 || xlen != 2 {
+        ctx.bound(&format!("bytes_ext_toy/{name}/uncompressed"), format!("not enumerated ({}-byte encoding)", ulen.max(advertised_u)));
+        return;
+    }
+    // (U1) every pair of canonical coordinates x every pattern of the two flag bits (model-built bytes):
+    // all curve points, all off-curve pairs, identity, infinity flag + junk, both flags
+    let q = f.order();
+    ctx.sweep(&format!("bytes_ext_toy/{name}/uncompressed_canonical_xy"), q * q * 4 * 4, |i, loc| {
+        let [ix, iy, ifl, vt] = unrank(i, [q, q, 4, 4]);
+        let mut bytes = [0u8; 8];
+        let n0 = m.enc(&[ix % p, ix / p], 0, 0, &mut bytes);
+        let n1 = m.enc(&[iy % p, iy / p], 2, (ifl << 6) as u8, &mut bytes[n0..]);
+        let b = &bytes[..n0 + n1];
+        let cls = classify_u(loc, b);
+        run(loc, b, cls, false, vt, advertised_u);
+    });
+    // (U2) raw byte strings: every string of length 0..=2, and for a set of x parts (some of every model
+    // class, incl. non-canonical ones) every continuation of 1 and 2 bytes
+    let per_class = ctx.t(4usize, 24usize);
+    let mut xparts: Vec<[u8; 2]> = Vec::new();
+    {
+        let mut seen: std::collections::BTreeMap<u32, usize> = std::collections::BTreeMap::new();
+        for i in 0..(1u32 << (8 * xlen)) {
+            let b = (i as u16).to_le_bytes();
+            let key = match m.dec::<EmptyFlags>(&b) {
+                SDec::Ok(c, _) => {
+                    let xi = t.xi((c[0], c[1]));
+                    let pts = &t.by_x[xi];
+                    let membership: u32 = if pts.is_empty() {
+                        0
+                    } else if pts.iter().all(|(_, i)| t.in_subgroup[*i]) {
+                        1
+                    } else {
+                        2
+                    };
+                    let x_is_zero: u32 = if i == 0 { 1000 } else { 0 };
+                    100 + 10 * (t.rhs_cls[xi] as u32) + membership + x_is_zero
+                }
+                // which coefficient(s) are out of range
+                _ => (b[0] as u64 >= p) as u32 + 2 * ((b[1] as u64 >= p) as u32),
+            };
+            let c = seen.entry(key).or_insert(0);
+            if *c < per_class {
+                *c += 1;
+                xparts.push(b);
+            }
+        }
+    }
+    ctx.bound(&format!("bytes_ext_toy/{name}/uncompressed_bytes"), format!("all strings of length 0..=2; {} x parts (first {per_class} of every model class of the 2-byte x part) x all continuations of 1 and 2 bytes", xparts.len()));
+    let n_short = count_strings(xlen);
+    let n_tail = count_strings(plen) - 1; // continuations of length 1..=plen
+    let nx = xparts.len() as u64;
+    let xparts = &xparts;
+    ctx.sweep(&format!("bytes_ext_toy/{name}/uncompressed_bytes"), (n_short + nx * n_tail) * 4, |i, loc| {
+        let [is, vt] = unrank(i, [n_short + nx * n_tail, 4]);
+        let mut bytes = [0u8; 8];
+        let len = if is < n_short {
+            let (len, s) = nth_string(is);
+            bytes = s;
+            len
+        } else {
+            let j = is - n_short;
+            let (tl, ts) = nth_string(1 + j % n_tail);
+            bytes[..xlen].copy_from_slice(&xparts[(j / n_tail) as usize]);
+            bytes[xlen..xlen + tl].copy_from_slice(&ts[..tl]);
+            xlen + tl
+        };
+        let b = &bytes[..len];
+        let cls = classify_u(loc, b);
+        run(loc, b, cls, false, vt, advertised_u);
+    });
+}
+
+// ------------------------------------------------------------------------------------------
 // (E) field elements: every byte string of the element length and shorter
 // ------------------------------------------------------------------------------------------
 /// Ok(v) must be canonical: every base-prime-field coefficient has raw (Montgomery) limbs < p and
@@ -1653,6 +2070,24 @@ fn main() {
         "pairing_output:cyclotomic_not_r_torsion",
         "x=0_tie",
         "flags_spill_to_extra_byte",
+        // square root in a quadratic extension field (compressed points over F_p^2), classes of rhs(x) by the model
+        "ext:rhs_c1=0_and_c0_nonresidue",
+        "ext:rhs_c1=0_and_c0_residue",
+        "ext:rhs=0",
+        "ext:rhs_c1!=0_square",
+        "ext:rhs_c1!=0_nonsquare",
+        "ext:y_sign_decided_by_c1",
+        "ext:y_sign_decided_by_c0",
+        "ext:beta=-1",
+        "ext:beta!=-1",
+        "ext:valid_subgroup_point",
+        "ext:out_of_subgroup_rejected",
+        "ext:off_curve_rejected",
+        "ext:no_sqrt",
+        "ext:field_int>=p_in_c0",
+        "ext:field_int>=p_in_c1",
+        "ext:field_int>=p_in_x",
+        "ext:field_int>=p_in_y",
     ]);
     ctx.assume("oracle: byte-level format model (u64 / num-bigint) classifies every input; validity of returned points: toy curves = brute-force group table (on curve, r*P = O), shipped curves = curve equation + plain double-and-add with r on the textbook affine law over the field operations (never the curve's own subgroup test / scalar multiplication); PairingOutput: x^r = 1 by the harness' own square-and-multiply");
     ctx.assume("property reading: with validation on, Ok(P) => P on the curve and in the prime-order subgroup, and inputs of the model classes {truncated, illegal flags, integer >= p, x without root, off curve, outside subgroup} => Err; infinity flag with non-zero coordinates may be rejected or accepted as the identity (never as another point); with validation off only no-panic and no read past the advertised size are demanded");
@@ -1665,6 +2100,15 @@ fn main() {
     ctx.assume("TeP103 (incomplete Edwards parameters) is excluded: the library's subgroup test is only specified on complete curves / the prime-order subgroup");
     algebra_mc::toy_sw_curves!(toy_sw, &mut ctx, sel);
     algebra_mc::toy_te_curves!(toy_te, &mut ctx, sel);
+    // ---- (E2) toy curves over quadratic extension fields (decompression = square root in F_p^2)
+    ctx.bound(
+        "bytes_ext_toy",
+        "4 toy curves over F_49 = F_7[u]/(u^2+1) (a = 0: cofactor 4 with 2-torsion, and prime order 61), F_25 = F_5[u]/(u^2-2) (a = u, cofactor 2), F_169 = F_13[u]/(u^2-2) (a = u, cofactor 4): compressed = every byte string of every length 0..=2 (full encoding length) x {checked, unchecked} x {Affine, Projective}; uncompressed (4 bytes) = every pair of canonical coordinates x 4 flag patterns, every string of length 0..=2, and chosen x parts x every continuation of 1..=2 bytes",
+    );
+    sw_ext_bytes::<SwQ7A0B32>(&mut ctx, "SwQ7A0B32", Fp2Model { p: 7, beta: 6 });
+    sw_ext_bytes::<SwQ7A0B12>(&mut ctx, "SwQ7A0B12", Fp2Model { p: 7, beta: 6 });
+    sw_ext_bytes::<SwQ5AuB11>(&mut ctx, "SwQ5AuB11", Fp2Model { p: 5, beta: 2 });
+    sw_ext_bytes::<SwQ13AuB22>(&mut ctx, "SwQ13AuB22", Fp2Model { p: 13, beta: 2 });
     // ---- (E) toy field elements
     macro_rules! fb {
         ($($F:ty, $n:expr);*) => {$( field_bytes_all::<$F>(&mut ctx, $n); )*};
